@@ -111,7 +111,7 @@ def _unrepresentable(v: Any) -> bool:
             or inspect.isbuiltin(v))
 
 
-def judge(mod: Any, eid: int, args: Tuple[Any, ...], strict_error: bool) -> Tuple[bool, bool, str]:
+def judge(mod: Any, eid: int, args: Tuple[Any, ...], strict_error: bool, strict_fstring: bool = False) -> Tuple[bool, bool, str]:
     """Evaluate the twin in CPython, call the contracted function, compare the message with what Python computed.
 
     Returns (ok, witness, what)."""
@@ -190,6 +190,12 @@ def judge(mod: Any, eid: int, args: Tuple[Any, ...], strict_error: bool) -> Tupl
                 ok = False
     # ---- completeness (no None bound to a used name: our inputs never are) --------------------------
     for kind, text, value in records:
+        if kind.startswith("fstr:"):
+            # evaluated inside an f-string: the library shows only the whole f-string (known finding KF-C06-1; the
+            # behaviour is pinned by tests_3_6/test_represent.py).  Soundness still applies to whatever it shows.
+            if not strict_fstring:
+                continue
+            kind = kind[len("fstr:"):]
         if kind in ("name", "attr", "call", "subscript", "comp", "named"):
             if _unrepresentable(value):
                 continue
@@ -227,6 +233,15 @@ def run_expr(tier: str, ids: Tuple[int, ...], heavy: bool, eid: int, x: int, y: 
     return ok, witness
 
 
+def run_fstring_strict(x: int, on: int) -> Tuple[bool, bool]:
+    """Witness of KF-C06-1: completeness demanded also for what is evaluated inside an f-string."""
+    with untraced():
+        mod = generated("quick")
+        eid = mod.EXPRS.index("f'{o.n}-{abs(x)}' == 'zz'")
+    ok, witness, what = judge(mod, eid, (x, 0, False, [], Obj(on, [], False)), strict_error=False, strict_fstring=True)
+    return ok, witness
+
+
 ALL = ["eid", "x", "y", "b", "xs", "on", "oflag"]
 
 
@@ -254,4 +269,8 @@ def harnesses(tier: str) -> List[H]:
                                     "; x, y case-split over a small range (int->str rendering, int-keyed sets/dicts and bitwise "
                                     "operators on symbolic ints do not finish)" if hv else ""),
                          family_size=len(ids), grid=120))
+    out.append(H("kf_fstring_inner", bind(run_fstring_strict, (), ["x", "on"], {}, ["x", "on"]), [I("x", -2, 3), I("on", -2, 2)],
+                 tiers=(tier,), timeout=120, witness_only=True,
+                 family="witness of the known finding KF-C06-1 only (attributes and calls evaluated inside an f-string are not "
+                        "listed); not part of the claim", family_size=1))
     return out
